@@ -249,12 +249,20 @@ def history_record(mesh, with_geometry):
         # "live": the explored mesh itself has geometry() called in every state (the GUI's
         # write - regrid - write loop), so anything geometry() caches is carried along the history
         m2 = mesh if with_geometry == "live" else dill.loads(dill.dumps(mesh))
-        m2.geometry()
-        for r in m2.regions.values():
-            rec[r.myID]["fields"] = {k: mla_dump(getattr(r, k)) for k in GEOM_FIELDS if hasattr(r, k)}
+        geometry_error = None
+        try:
+            m2.geometry()
+        except Exception as e:  # noqa: BLE001 - an explicit refusal by geometry() is an observable outcome
+            geometry_error = "%s: %s" % (type(e).__name__, str(e)[:300])
+        if geometry_error is None:
+            for r in m2.regions.values():
+                rec[r.myID]["fields"] = {k: mla_dump(getattr(r, k)) for k in GEOM_FIELDS if hasattr(r, k)}
     opts = dict(mesh.equilibrium.nonorthogonal_options)
-    return dict(regions=rec, nonorthogonal_options=opts, user_options=dict(mesh.user_options),
-                eq_user_options=dict(mesh.equilibrium.user_options))
+    out = dict(regions=rec, nonorthogonal_options=opts, user_options=dict(mesh.user_options),
+               eq_user_options=dict(mesh.equilibrium.user_options))
+    if with_geometry and geometry_error is not None:
+        out["geometry_error"] = geometry_error
+    return out
 
 
 def build_circular(c):
